@@ -70,7 +70,7 @@ def main(args):
                "non-ASCII digits, whitespace, %%, /, T, W, Z, newline) of valid and invalid seeds incl. the alternative ISO 8601 "
                "date spellings; the recogniser's verdict is exported and replayed through conforms() and check() of "
                "FormatChecker() and of every draft checker that registers the name. never-raises half: for EVERY name "
-               "registered in this installation (%s), seeded near-miss / random Unicode / pathological strings (and 48 regular expressions on which a parser and the compiler may part) are recorded and "
+               "registered in this installation (%s), seeded near-miss / random Unicode / pathological strings (and 57 regular expressions on which a parser and the compiler may part) are recorded and "
                "judged by TLC (Trace_C13): conforms returns a boolean, check raises nothing but FormatError, both agree, and "
                "for names with a grammar the verdict equals the recogniser's. Non-trivial: non-empty string; distinct by "
                "(name, string)." % ("single" if quick else "single and double", ", ".join(sorted(FC.checkers))))
@@ -113,7 +113,7 @@ def main(args):
     regex_strings = ["(?<=a+)b", "(?<!a*)", "(?<=a|bc)d", "(?<=a{2,3})", "(?<=ab)c", "(?<!ab|cd)e", "(?<=(a))b\\1", "(a)(?<=\\1)",
                      "(?P<n>a)(?P=n)", "(?P<n>a)(?P<n>b)", "(?P=n)", "\\1", "(a)\\2", "(?i)a", "a(?i)", "(?i:a)b", "(?-i:a)", "[z-a]",
                      "a**", "a{2,1}", "a{,}", "(?(1)a|b)", "(a)?(?(1)b|c)", "(?(2)a)", "\\p{L}", "\\N{DASH}", "\\N{EM DASH}", "[[:alpha:]]",
-                     "a\\{99999999999\\}", "[^{99999999999}]+", "a{99999999999", "id{12345678901,x}", "a{00000000001}", "{12345678901}", "(?#", "(?#)", "\\", "a|*", "(?<n>a)", "(?P<1>a)", "\\8", "[\\d-a]", "(?s)(?m)", "x*+", "x{2}+", "(?>a)", "\x00", "a\ud800"]
+                     "(?u)abc", "(?iu)^[a-z]+$", "(?x)(?u) a b c", "(?u)", "(?u:abc)", "(?a)abc", "(?au)x", "(?L)a", "(?s)(?u).", "a\\{99999999999\\}", "[^{99999999999}]+", "a{99999999999", "id{12345678901,x}", "a{00000000001}", "{12345678901}", "(?#", "(?#)", "\\", "a|*", "(?<n>a)", "(?P<1>a)", "\\8", "[\\d-a]", "(?s)(?m)", "x*+", "x{2}+", "(?>a)", "\x00", "a\ud800"]
     for i in range(n):
         s = regex_strings[i] if i < len(regex_strings) else rand_string(ck.rng)
         for cname, fc in checkers.items():
